@@ -760,6 +760,91 @@ func init() {
 		Run: func(c *Ctx, scope string, r *Report) {
 			for _, gname := range []string{"encoder", "decoder"} {
 				g := c.Global(gname)
+				// the one mutex every access outside sync.Once holds (lazy creation under a lock)
+				lockOf := func(fn *ssa.Function, ins ssa.Instruction) string {
+					for id := range lockAnalyse(fn).must[ins] {
+						if c.SSA.Members[id] != nil { // a package-level mutex
+							return id
+						}
+					}
+					return ""
+				}
+				theLock := ""
+				// uses of the shared object: only as the receiver of the stateless calls; it may be
+				// handed to the caller by an accessor, whose callers are then held to the same
+				var checkUses func(v ssa.Value, fn *ssa.Function, synced bool, depth int)
+				checkUses = func(v ssa.Value, fn *ssa.Function, synced bool, depth int) {
+					if v.Referrers() == nil || depth > 3 {
+						return
+					}
+					for _, ref := range *v.Referrers() {
+						key := fnName(fn) + "/use-" + gname
+						switch y := ref.(type) {
+						case *ssa.DebugRef:
+							continue
+						case *ssa.BinOp:
+							if y.Op == token.EQL || y.Op == token.NEQ {
+								if ld, isLd := v.(*ssa.UnOp); isLd && ld.X == ssa.Value(g) && !synced {
+									r.bad(key, fnName(fn), c.pos(ref.Pos()), "unsynchronised nil test of package-level "+gname+" (lazy init without sync.Once, not under the lock that guards its creation)")
+								} else {
+									r.ok(key, fnName(fn), c.pos(ref.Pos()), "nil test under the lock that guards the creation")
+								}
+								continue
+							}
+						case *ssa.Store:
+							// spilled into the cell of a result (functions with defer) and loaded for the return
+							if a, isAlloc := y.Addr.(*ssa.Alloc); isAlloc && y.Val == v {
+								for _, r2 := range *a.Referrers() {
+									if ld, isLd := r2.(*ssa.UnOp); isLd && ld.Op == token.MUL {
+										checkUses(ld, fn, synced, depth)
+									}
+								}
+								continue
+							}
+						case *ssa.Return:
+							if fn.Parent() != nil || !synced {
+								break
+							}
+							idx := -1
+							for i, res := range y.Results {
+								if res == v {
+									idx = i
+								}
+							}
+							for _, site := range c.callsTo(fn) {
+								call, isCall := site.(*ssa.Call)
+								if !isCall {
+									r.bad(key, fnName(fn), c.pos(site.Pos()), "the accessor of the shared "+gname+" is called in a go/defer statement")
+									continue
+								}
+								var res ssa.Value = call
+								if fn.Signature.Results().Len() > 1 {
+									res = nil
+									if ex := tupleParts(call)[idx]; ex != nil {
+										res = ex
+									}
+								}
+								if res != nil {
+									checkUses(res, site.Parent(), true, depth+1)
+								}
+							}
+							continue
+						case ssa.CallInstruction:
+							sc := y.Common().StaticCallee()
+							if sc != nil && (sc.Name() == "EncodeAll" || sc.Name() == "DecodeAll") && y.Common().Args[0] == v {
+								if synced {
+									r.ok(key, fnName(fn), c.pos(ref.Pos()), "stateless "+sc.Name()+" on the object obtained under Once.Do / the creation lock")
+								} else {
+									r.bad(key, fnName(fn), c.pos(ref.Pos()), gname+" used without a dominating sync.Once.Do")
+								}
+								continue
+							}
+							r.bad(key, fnName(fn), c.pos(ref.Pos()), "shared "+gname+" used through a stateful API: "+ref.String())
+							continue
+						}
+						r.undecided(key, fnName(fn), c.pos(ref.Pos()), "package-level "+gname+" escapes: "+ref.String())
+					}
+				}
 				for _, fn := range c.srcFns {
 					for _, b := range fn.Blocks {
 						for _, ins := range b.Instrs {
@@ -767,9 +852,14 @@ func init() {
 							case *ssa.Store:
 								if x.Addr == ssa.Value(g) {
 									key := fnName(fn) + "/store-" + gname
-									if c.inOnceDo(fn) {
+									lk := lockOf(fn, ins)
+									switch {
+									case c.inOnceDo(fn):
 										r.ok(key, fnName(fn), c.pos(ins.Pos()), "created inside sync.Once.Do")
-									} else {
+									case lk != "" && (theLock == "" || theLock == lk):
+										theLock = lk
+										r.ok(key, fnName(fn), c.pos(ins.Pos()), "created while holding "+lk)
+									default:
 										r.bad(key, fnName(fn), c.pos(ins.Pos()), "package-level "+gname+" assigned outside sync.Once.Do: concurrent first uses race")
 									}
 								}
@@ -777,32 +867,12 @@ func init() {
 								if x.Op != token.MUL || x.X != ssa.Value(g) {
 									continue
 								}
-								for _, ref := range *x.Referrers() {
-									key := fnName(fn) + "/use-" + gname
-									ci, ok := ref.(ssa.CallInstruction)
-									if !ok {
-										if _, isDbg := ref.(*ssa.DebugRef); isDbg {
-											continue
-										}
-										if bin, isBin := ref.(*ssa.BinOp); isBin && (bin.Op == token.EQL || bin.Op == token.NEQ) {
-											r.bad(key, fnName(fn), c.pos(ref.Pos()), "unsynchronised nil test of package-level "+gname+" (lazy init without sync.Once)")
-											continue
-										}
-										r.undecided(key, fnName(fn), c.pos(ref.Pos()), "package-level "+gname+" escapes: "+ref.String())
-										continue
-									}
-									sc := ci.Common().StaticCallee()
-									if sc != nil && (sc.Name() == "EncodeAll" || sc.Name() == "DecodeAll") && ci.Common().Args[0] == ssa.Value(x) {
-										// the load must come after the Once.Do in the same function
-										if onceDoDominates(fn, x) {
-											r.ok(key, fnName(fn), c.pos(ref.Pos()), "stateless "+sc.Name()+" after Once.Do")
-										} else {
-											r.bad(key, fnName(fn), c.pos(ref.Pos()), gname+" used without a dominating sync.Once.Do")
-										}
-									} else {
-										r.bad(key, fnName(fn), c.pos(ref.Pos()), "shared "+gname+" used through a stateful API: "+ref.String())
-									}
+								lk := lockOf(fn, ins)
+								synced := c.inOnceDo(fn) || onceDoDominates(fn, x) || (lk != "" && (theLock == "" || theLock == lk))
+								if lk != "" && theLock == "" {
+									theLock = lk
 								}
+								checkUses(x, fn, synced, 0)
 							}
 						}
 					}
